@@ -29,8 +29,10 @@ def closure_calls(prog, term, suffixes):
             return True
         if s[0] == "agg" and s[1].startswith("closure:"):
             cb = prog.get(s[1][len("closure:"):])
-            if cb and any(t.get("f") and t["f"]["path"].endswith(suffixes) for _, t in cb.calls()):
-                return True
+            nest = [cb] + [c for pth, c in prog.bodies.items() if pth.startswith(cb.path + "::{closure")] if cb else []
+            for c in nest:                                  # the closure and the closures nested in it
+                if any(t.get("f") and t["f"]["path"].endswith(suffixes) for _, t in c.calls()):
+                    return True
     return False
 
 
